@@ -739,7 +739,7 @@ pub fn run(ctx: &Ctx) -> i32 {
         ctx,
         &rep,
         Finish {
-            level: "model_checking",
+            level: "exploration",
             rule: format!("every sequence of length {d_uni} over an 11-operation alphabet on a client-initiated unidirectional stream ({n_uni} sequences) and of length {d_bi} over a 19-operation alphabet on a bidirectional one ({n_bi}), plus random sequences of length 6..40: client write/finish/reset/stopped()/set_priority, server accept/read(ordered)/read(unordered)/stop/received_reset, (bidi) the mirrored operations in the other direction, and a move that carries all datagrams until the world is quiet. Each is run on a fresh connected plaintext-lane pair and on the reference model in lock step; compared after every operation: the return value class (Ok(n), Blocked, Stopped(c), ClosedStream, Data(n)+End/Blocked/Reset(c), IllegalOrderedRead), Finished/Stopped event multisets on both sides, events for unused streams, and the server's remote_open_streams. Distinct = distinct executed operation sequences."),
             assumptions: vec![
                 "operations take no virtual time; a network move delivers what was queued by earlier operations before the acknowledgements it triggers, which makes STOP_SENDING-vs-ACK races deterministic".into(),
